@@ -3375,6 +3375,12 @@ func (c S3ApiController) HeadObject(ctx *fiber.Ctx) error {
 		partNumber = &partNumberQuery
 	}
 
+	// reading a specific version is its own action, as in GetObject
+	headAction := auth.GetObjectAction
+	if versionId != "" {
+		headAction = auth.GetObjectVersionAction
+	}
+
 	err := auth.VerifyAccess(ctx.Context(), c.be,
 		auth.AccessOptions{
 			Readonly:      c.readonly,
@@ -3384,7 +3390,7 @@ func (c S3ApiController) HeadObject(ctx *fiber.Ctx) error {
 			Acc:           acct,
 			Bucket:        bucket,
 			Object:        key,
-			Action:        auth.GetObjectAction,
+			Action:        headAction,
 		})
 	if err != nil {
 		return SendResponse(ctx, err,
